@@ -4,6 +4,7 @@ import CssVerif.Lemmas.CodecEnc
 import CssVerif.Lemmas.CodecAgree
 import CssVerif.Lemmas.CodecStream
 import CssVerif.Lemmas.CodecAuto
+import CssVerif.Lemmas.CodecErr
 /-!
 # C07 — CSS codec: detection follows CSS 2.1 §4.4, early answers are never revised
 
@@ -273,6 +274,25 @@ theorem roundtrip_given_chunked (g : Name) (c : CName) (ts bs : List (List Nat))
 
 
 
+
+/-- T7.5 with the exception of the inner decoder (`errors="strict"`): for EVERY chunking, `encoding`, `force` —
+some call of `IncrementalDecoder.decode` raises iff one-shot `decode` raises (ill-formed or truncated data for
+the encoding that is given or detected), and otherwise the concatenated outputs are the one-shot result -/
+theorem decoder_chunking_errors (given : Option Name) (force : Bool) (cs : List (List Nat)) :
+    runAllE cpyInner given force cs = oneShotE cpyInner given force cs.flatten :=
+  runAllE_eq cpyInner given force cs
+
+/-- … where one-shot `decode` is the real one (stateless `codecs.getdecoder`, then `_fixencoding`) on all data
+on which CPython's stateless and incremental decoders agree (`Agree`; outside it see the two findings) -/
+theorem oneShotE_is_stateless_partial (given : Option Name) (force : Bool) (d : List Nat) (c : CName)
+    (hl : lookupName (finalEnc given force d) = some c) (ha : Agree c d) :
+    oneShotE cpyInner given force d =
+      (statelessDecode c d).map (fun txt => fixFinal txt (finalEnc given force d)) := by
+  rw [stateless_agrees c d ha]
+  unfold oneShotE errAt oneShot obs
+  simp only [hl, cpyInner, cpyOut]
+  cases (incOut c d true).err <;> simp
+
 /-! ## round trip with auto-detection (no `encoding` argument on the decoding side) -/
 
 /-- T7.1 (auto-detected, BOM): a text encoded with a BOM-writing encoding (`utf-8-sig`, `utf-16`, `utf-32`, any
@@ -495,5 +515,13 @@ example : lookupName (cps' "latin-1") = some (.plain .l1) ∧
     (encScan .l1 (fixFinal (prefix10 ++ [0x78] ++ 0x22 :: [0x3B, 0xE9]) (cps' "latin-1"))).2 = true := by decide
 example : oneShot cpyInner none true (encodeOneShot cpyInnerEnc (some (cps' "latin-1")) (prefix10 ++ [0x78] ++ 0x22 :: [0x3B, 0xE9])) =
     prefix10 ++ cps' "latin-1" ++ [0x22, 0x3B, 0xE9] := by decide
+/-- errors: truncated UTF-8 raises in both; the incremental decoder at the final call -/
+example : runAllE cpyInner none true [[0x61], [0xC3]] = none ∧ oneShotE cpyInner none true [0x61, 0xC3] = none := by
+  decide
+example : runAllE cpyInner none true [[0x61, 0xC3], [0xA9]] = some [0x61, 0xE9] := by decide
+example : lookupName (finalEnc none true [0x61, 0xC3, 0xA9]) = some (.plain .u8) ∧ Agree (.plain .u8) [0x61, 0xC3, 0xA9] := by
+  constructor
+  · decide
+  · trivial
 
 end CssVerif.C07
